@@ -85,6 +85,10 @@ func c13alphabet() []c13op {
 	ops = append(ops, c13op{id: "JSONPatch", kind: "jsonpatch", name: "cm", val: 8,
 		json: `{"operation":"JSONPatch","kind":"ConfigMap","namespace":"default","name":"cm","jsonPatch":[{"op":"replace","path":"/spec/replicas","value":8}]}`,
 		yaml: "operation: JSONPatch\nkind: ConfigMap\nnamespace: default\nname: cm\njsonPatch:\n- op: replace\n  path: /spec/replicas\n  value: 8\n"})
+	// a patch of two items, the second one of a kind that has no value (copy / move / remove)
+	ops = append(ops, c13op{id: "JSONPatch(replace+copy)", kind: "jsonpatch", name: "cm", val: 10,
+		json: `{"operation":"JSONPatch","kind":"ConfigMap","namespace":"default","name":"cm","jsonPatch":[{"op":"replace","path":"/spec/replicas","value":10},{"op":"copy","from":"/spec/replicas","path":"/spec/copy"}]}`,
+		yaml: "operation: JSONPatch\nkind: ConfigMap\nnamespace: default\nname: cm\njsonPatch:\n- op: replace\n  path: /spec/replicas\n  value: 10\n- op: copy\n  from: /spec/replicas\n  path: /spec/copy\n"})
 	ops = append(ops, c13op{id: "JSONPatch(cm2,ignoreMissing)", kind: "jsonpatch", name: "cm2", val: 2, ignore: true,
 		json: `{"operation":"JSONPatch","kind":"ConfigMap","namespace":"default","name":"cm2","ignoreMissingObject":true,"jsonPatch":[{"op":"replace","path":"/spec/replicas","value":2}]}`,
 		yaml: "operation: JSONPatch\nkind: ConfigMap\nnamespace: default\nname: cm2\nignoreMissingObject: true\njsonPatch:\n- op: replace\n  path: /spec/replicas\n  value: 2\n"})
